@@ -163,8 +163,8 @@ func runCorpus(g *vlib.Rng) {
 	}
 	for _, n := range ns {
 		for _, dense := range []bool{false, true} {
-			if dense && n > 3000 && !(r.Thorough() && n == 30001) {
-				continue
+			if dense && n > 3000 && n != 30001 {
+				continue // the dense record of 30001 outputs (the quantifier's upper end) runs in both tiers
 			}
 			rec := &Rec{TxID: txid, Height: 840000, CB: n%2 == 1, N: n}
 			for i := 0; i < n; i++ {
@@ -248,19 +248,8 @@ func runRecords(g *vlib.Rng) {
 			maxN, budget = 70000, 600000
 		}
 		rec := genRec(g, maxN, budget)
-		// the model's decoder is a list program (outs[idx] = … costs idx steps): keep idx × live bounded.
-		// Dense records with 30001 outputs are in the corpus (thorough tier) once per mode.
-		if lim := 12000000 / rec.N; len(rec.Live) > lim && lim >= 1 {
-			keep := rec.Live[:0:0]
-			step := len(rec.Live) / lim
-			for k := 0; k < len(rec.Live) && len(keep) < lim-1; k += step + 1 {
-				keep = append(keep, rec.Live[k])
-			}
-			if last := rec.Live[len(rec.Live)-1]; len(keep) == 0 || keep[len(keep)-1].Idx != last.Idx {
-				keep = append(keep, last)
-			}
-			rec.Live = keep
-		}
+		// (the model's whole-record decoders run on arrays in compiled code — @[csimp] newRecU_csimp / newRecC_csimp —
+		// so dense records need no thinning any more)
 		vouts := pickVouts(g, rec)
 		for _, sc := range rec.Live {
 			if len(rec.Live) < 50 {
